@@ -7,10 +7,12 @@ import (
 	"reflect"
 	"regexp"
 	"strings"
+	"unicode"
 	"unicode/utf8"
 
 	regexp2 "github.com/dlclark/regexp2/v2"
 	"github.com/dlclark/regexp2/v2/compat"
+	"github.com/dlclark/regexp2/v2/syntax"
 
 	"verif/internal/core"
 	"verif/internal/gen"
@@ -70,8 +72,57 @@ func goSafeAST(root *gen.Node) bool {
 				ok = false
 			}
 		}
+		if n.K == gen.KClass && isFoldOrbitClass(n) {
+			ok = false
+		}
 	})
 	return ok
+}
+
+// isFoldOrbitClass recognises classes like [aA] whose members are exactly one
+// case-fold orbit. Go's parser turns such a class into a case-folded literal,
+// and its alternation factoring (regexp/syntax.Regexp.Equal ignores the
+// FoldCase flag of literals) then merges it with a plain literal of the same
+// letter: Go compiles [aA]x|A as (?i:A)(?:x|) and matches "a" with it. That is a
+// defect of the oracle, so the shape is kept out of the compared fragment.
+func isFoldOrbitClass(n *gen.Node) bool {
+	if n.Neg || n.Sub != nil || len(n.Items) == 0 {
+		return false
+	}
+	set := map[rune]bool{}
+	for _, it := range n.Items {
+		switch {
+		case it.T == "r":
+			set[it.Lo] = true
+		case it.T == "range" && it.Hi-it.Lo <= 2:
+			for c := it.Lo; c <= it.Hi; c++ {
+				set[c] = true
+			}
+		default:
+			return false
+		}
+	}
+	if len(set) < 2 {
+		return false
+	}
+	var first rune
+	for c := range set {
+		first = c
+		break
+	}
+	orbit := map[rune]bool{first: true}
+	for c := unicode.SimpleFold(first); c != first; c = unicode.SimpleFold(c) {
+		orbit[c] = true
+	}
+	if len(orbit) != len(set) {
+		return false
+	}
+	for c := range set {
+		if !orbit[c] {
+			return false
+		}
+	}
+	return true
 }
 
 type c06Diff struct {
@@ -129,7 +180,7 @@ func compareMatchers(a compat.Matcher, g compat.Matcher, s string, st func(strin
 // specification; asciiBoundary selects Go's \b, otherwise the engine's.
 func refAll(pat *gen.Pattern, goOrder []int, s string, asciiBoundary bool) ([][]int, bool) {
 	im := mon.NewIndexMap(s)
-	m := &ref.Matcher{Text: im.Runes, D: ref.Dialect{RE2: true}, Budget: 400000, ASCIIBoundary: asciiBoundary}
+	m := &ref.Matcher{Text: im.Runes, D: ref.Dialect{RE2: true}, Budget: 3000000, ASCIIBoundary: asciiBoundary}
 	var out [][]int
 	start, prevEnd := 0, -1
 	for start <= len(im.Runes) {
@@ -171,7 +222,8 @@ type c06Case struct {
 	ordered *compat.Regexp // same pattern with OptionMaintainCaptureOrder
 	g       *regexp.Regexp
 	hasWB   bool
-	mixed   bool // named and unnamed groups both present
+	mixed   bool                  // named and unnamed groups both present
+	gated   func() compat.Matcher // the adapter with only the loop-followed-by-\B auto-atomic clauses off (K1)
 }
 
 func buildC06(ast *gen.Node) (*c06Case, string) {
@@ -195,6 +247,14 @@ func buildC06(ast *gen.Node) (*c06Case, string) {
 		ro.MatchTimeout = shortTimeout
 		c.ordered = compat.Wrap(ro)
 	}
+	c.gated = func() compat.Matcher {
+		rg, err := mon.CompileGated(syntax.VerifRewriteNonBoundaryAtomic, pat.Src, int(regexp2.RE2), 0)
+		if err != nil {
+			return nil
+		}
+		rg.MatchTimeout = shortTimeout
+		return compat.Wrap(rg)
+	}
 	named, unnamed := false, false
 	ast.Walk(func(n *gen.Node) {
 		if n.K == gen.KAnchor && (n.Anchor == `\b` || n.Anchor == `\B`) {
@@ -214,7 +274,45 @@ func buildC06(ast *gen.Node) (*c06Case, string) {
 
 // classify decides whether a divergence falls into a listed known finding.
 // It returns the class name or "".
-func (c *c06Case) classify(s string) string {
+func (c *c06Case) classify(s string) []string {
+	one := func(x string) []string {
+		if x == "" {
+			return nil
+		}
+		return []string{x}
+	}
+	var gated compat.Matcher
+	if c.hasWB {
+		// K1: a loop over non-word / non-digit characters followed by \B is made atomic
+		if gated = c.gated(); gated != nil {
+			d, in := compareMatchers(gated, c.g, s, func(string) {})
+			if in {
+				return one("inconclusive")
+			}
+			if d == nil {
+				return one("nonboundary-auto-atomic")
+			}
+		}
+	}
+	if cl := c.classify1(s, c.a); cl != "" {
+		return one(cl)
+	}
+	if gated != nil {
+		// both K1 and the Unicode word boundary at once
+		cl := c.classify1(s, gated)
+		if cl == "inconclusive" {
+			return one(cl)
+		}
+		if cl == "re2-unicode-word-boundary" {
+			if d, in := compareMatchers(gated, c.a, s, func(string) {}); !in && d != nil {
+				return []string{"nonboundary-auto-atomic", cl}
+			}
+		}
+	}
+	return nil
+}
+
+func (c *c06Case) classify1(s string, a compat.Matcher) string {
 	// D12: named groups are numbered after unnamed ones unless MaintainCaptureOrder is given
 	if c.mixed && c.ordered != nil {
 		d, in := compareMatchers(c.ordered, c.g, s, func(string) {})
@@ -232,10 +330,13 @@ func (c *c06Case) classify(s string) string {
 		engOrder = append(engOrder, c.pat.Groups.Numbers...)
 		uni, ok1 := refAll(c.pat, engOrder, s, false)
 		asc, ok2 := refAll(c.pat, goOrder, s, true)
+		if !ok1 || !ok2 {
+			return "inconclusive" // the specification ran out of its step budget on this pattern: nothing can be attributed
+		}
 		if ok1 && ok2 {
 			var eng, gov [][]int
 			in, bad := guardCompat(func() {
-				eng = c.a.FindAllStringSubmatchIndex(s, -1)
+				eng = a.FindAllStringSubmatchIndex(s, -1)
 				gov = c.g.FindAllStringSubmatchIndex(s, -1)
 			})
 			if !in && bad == "" && normPairs(eng) == normPairs(uni) && normPairs(gov) == normPairs(asc) {
@@ -351,14 +452,22 @@ func runC06(r *core.Run) int {
 				}
 			}
 			if d != nil {
-				class := c.classify(s)
-				if class == "inconclusive" {
+				classes := c.classify(s)
+				if len(classes) == 1 && classes[0] == "inconclusive" {
 					l.Inconclusive("classification-resource-error")
 					continue
 				}
-				if class != "" {
-					if k := r.KnownClass(class); k != nil {
-						r.KnownHit(k.ID)
+				if len(classes) > 0 {
+					all := true
+					for _, class := range classes {
+						if r.KnownClass(class) == nil {
+							all = false
+						}
+					}
+					if all {
+						for _, class := range classes {
+							r.KnownHit(r.KnownClass(class).ID)
+						}
 						continue
 					}
 				}
@@ -378,6 +487,6 @@ func runC06(r *core.Run) int {
 	r.Extras["bounds"] = map[string]any{"patterns": nPat, "exhaustive_len": 3, "directed_inputs_per_pattern": nDirected, "n": []int{-1, 0, 1, 2, 3}, "methods": 22}
 	return r.Finish(
 		"patterns printed from random ASTs restricted to the RE2-common constructs (literals and escapes, ., classes incl. \\d\\w\\s, \\p{..}, POSIX names, ^ $ \\A \\z, (?m)(?s), capturing / (?:) / (?P<n>) / (?<n>) groups, alternation incl. empty branches, greedy and lazy quantifiers with counts up to 50 over non-nullable bodies; 5% with \\b/\\B); patterns Go rejects are skipped; every Matcher method (22, n in {-1,0,1,2,3}) of compat.Regexp (RE2 option) vs *regexp.Regexp on ASCII, multi-byte, invalid UTF-8 and empty inputs; evaluation = one (pattern,input); non-trivial = distinct (pattern,input) that Go matches",
-		[]string{"Go's regexp is the oracle", "known divergences (Unicode \\b, named-group numbering) are suppressed only when the explained-by recomputation reproduces both engines"},
+		[]string{"Go's regexp is the oracle", "classes whose members are exactly one case-fold orbit ([aA]) are left out: Go's parser merges the folded literal it makes of them with a plain literal during alternation factoring ([aA]x|A matches \"a\" in Go)", "known divergences (Unicode \\b, named-group numbering, the \\B auto-atomic rewrite) are suppressed only when the explained-by recomputation reproduces both engines"},
 		map[string]int64{"evaluations": 20000, "distinct_nontrivial": 5000, "method_FindAllStringSubmatchIndex(n=-1)": 20000})
 }
